@@ -29,6 +29,11 @@ func (p *PoolAllocator[T]) Get() *Buffer[T] {
 
 func (p *PoolAllocator[T]) Put(b *Buffer[T]) {
 	mustSame(p.alloc.Capacity*p.alloc.Channels, b.Cap(), diffCapacity)
+	// zero the whole capacity, not only the current length, and restore the
+	// allocated length: the next Get must return a buffer that cannot be
+	// told from a newly allocated one.
+	b.data = b.data[:b.Cap()]
 	b.clear()
+	b.data = b.data[:p.alloc.Length*p.alloc.Channels]
 	p.pool.Put(b)
 }
